@@ -128,3 +128,23 @@ def C19_imp_shortcut_observed(case, params):
     if not changed:
         return False
     return rt.c19_check(dict(c, text=text2), case.get("prog", [])) is None
+
+
+def C19_imp_grouping_observed(case, params):
+    """F-C19-imp-grouping-after-observation: importances that were read from a data-block card for SEVERAL particles
+    ('imp:n,p ...') are printed with the cells (a placement edit of 'imp' towards the cells) and one cell's importances
+    are edited more than once.  Ablation: the same program without the placement edits."""
+    import rt, spec
+    if case.get("kind") != "observation-changed-output":
+        return False
+    c = case["case"]
+    prog = case.get("prog", [])
+    if not any(e.get("kind") == "placement" and e.get("key") == "imp" and not e.get("data_block") for e in prog):
+        return False
+    if sum(1 for e in prog if e.get("kind") == "importance") < 2:
+        return False
+    sp = spec.split_file(c["text"], c["width"])
+    blocks = sp["blocks"] + [[]] * (3 - len(sp["blocks"]))
+    if not any(re.match(r"^\*?IMP:[^,\s]+,", (spec.tokens(card.text) or [""])[0]) for card in blocks[2]):
+        return False
+    return rt.c19_check(c, [e for e in prog if e.get("kind") != "placement"]) is None
